@@ -27,7 +27,7 @@ def confirm(t):
     line = [l for l in r.stdout.splitlines() if l.startswith("{")]
     conf = json.loads(line[-1]) if line else {"error": r.stdout[-300:] + r.stderr[-300:]}
     note = open(os.path.join(d, "note.txt")).read().strip() if os.path.exists(os.path.join(d, "note.txt")) else ""
-    ordinal = {"2": "second", "3": "third", "4": "fourth", "5": "fifth", "6": "sixth", "7": "seventh"}.get(wave, wave)
+    ordinal = {"2": "second", "3": "third", "4": "fourth", "5": "fifth", "6": "sixth", "7": "seventh", "8": "eighth", "9": "ninth", "10": "tenth"}.get(wave, wave)
     meta = {"id": name, "property": pid,
             "origin": f"{ordinal} wave: fresh sub-agent given only the property text and its own scratch worktree of /repo, asked for subtle and original changes with narrow triggers",
             "what_it_needs_to_manifest": note,
